@@ -4,10 +4,13 @@ import (
 	"encoding/hex"
 	"fmt"
 	"sync"
+	"sync/atomic"
 )
 
 // runReadCases evaluates cases in parallel on the implementation, checks the ground truth and
 // then the Lean model.
+var readHangs int32
+
 func runReadCases(ctx *runCtx, cases []*ReadCase, kindOf func(*ReadCase) string) {
 	rep := ctx.rep
 	// the ground truth of these generators does not account for the read limit (C08 does): a case whose
@@ -36,7 +39,13 @@ func runReadCases(ctx *runCtx, cases []*ReadCase, kindOf func(*ReadCase) string)
 		go func(i int) {
 			defer wg.Done()
 			defer func() { <-sem }()
+			if atomic.LoadInt32(&readHangs) >= 3 {
+				return // the library evidently blocks: three cases with their replays are enough, do not wait 35 s for each of the rest
+			}
 			obs[i] = runReadCase(cases[i])
+			if obs[i].Hang {
+				atomic.AddInt32(&readHangs, 1)
+			}
 		}(i)
 	}
 	wg.Wait()
@@ -44,6 +53,10 @@ func runReadCases(ctx *runCtx, cases []*ReadCase, kindOf func(*ReadCase) string)
 	var idx []int
 	for i, c := range cases {
 		o := obs[i]
+		if o == nil {
+			rep.count("skipped-after-hangs")
+			continue
+		}
 		key := fmt.Sprintf("%s/%v/%v/%d/%s", kindOf(c), c.Client, c.Flate, len(c.Stream)/2, c.Exp.Why)
 		if len(c.Stream) == 0 {
 			key = ""
